@@ -296,6 +296,42 @@ func c06Emit(emit vutil.Emit, tbl [][2]string, host string, qt int) {
 	emit(f...)
 }
 
+// c06LongChain builds an acyclic CNAME chain h0 -> h1 -> ... -> hn of 2..64
+// hops in shuffled table order, ended by nothing (resolved upstream), by a
+// back edge (cycle), by an exception entry or by addresses, and asks for a name
+// on it (half of the time its head).  "Chains of any length" is part of the
+// property; a hop limit would only show here (seed C06-19).
+func c06LongChain(r *rand.Rand) (tbl [][2]string, host string) {
+	n := vutil.Pick(r, []int{2, 5, 8, 9, 10, 12, 16, 17, 24, 33, 40, 64})
+	names := make([]string, n+1)
+	for i := range names {
+		names[i] = "h" + vutil.Itoa(i) + ".chain.x.com"
+	}
+	for i := 0; i < n; i++ {
+		tbl = append(tbl, [2]string{names[i], names[i+1]})
+	}
+	switch r.IntN(6) {
+	case 0:
+		// the chain leaves the table
+	case 1:
+		tbl = append(tbl, [2]string{names[n], names[r.IntN(n+1)]})
+	case 2:
+		tbl = append(tbl, [2]string{names[n], vutil.Pick(r, []string{"A", "AAAA"})})
+	default:
+		tbl = append(tbl, [2]string{names[n], vutil.Pick(r, c06V4)})
+		if r.IntN(2) == 0 {
+			tbl = append(tbl, [2]string{names[n], vutil.Pick(r, c06V6)})
+		}
+	}
+	r.Shuffle(len(tbl), func(a, b int) { tbl[a], tbl[b] = tbl[b], tbl[a] })
+	host = names[0]
+	if r.IntN(2) == 0 {
+		host = names[r.IntN(n+1)]
+	}
+
+	return tbl, host
+}
+
 func c06Gen(r *rand.Rand, emit vutil.Emit) {
 	n := vutil.N(20000)
 	var (
@@ -327,6 +363,16 @@ func c06Gen(r *rand.Rand, emit vutil.Emit) {
 			}
 			c06Emit(emit, tbl, host, qt)
 			prev, prevHost, prevQt = tbl, host, qt
+
+			continue
+		}
+
+		if r.IntN(100) < 4 {
+			// a long CNAME chain (far beyond the dense universe's 7 names)
+			tbl, host := c06LongChain(r)
+			qt := c06Qtype(r)
+			c06Emit(emit, tbl, host, qt)
+			prev, prevHost, prevQt, prevU = tbl, host, qt, c06NewUniv(r, false)
 
 			continue
 		}
